@@ -74,7 +74,9 @@ def _body(S, t, part, fired_log):
     drained_to_zero = [False]
     bip_bad = []
 
-    def fire(st, queue=None):
+    pending_end = [None]
+
+    def fire(st, queue=None, at_event=None):
         g = m.game
         if g is None:
             return
@@ -93,9 +95,13 @@ def _body(S, t, part, fired_log):
         elif k == "end_ball":
             m.events.post("end_ball")
             end_requested[0] = True
+            if at_event in ("ball_will_start", "ball_starting", "ball_started"):
+                pending_end[0] = sum(1 for x in stream if x[0] == "ball_ended")
         elif k == "end_game":
             m.events.post("end_game")
             end_requested[0] = True
+            if at_event in ("ball_will_start", "ball_starting", "ball_started"):
+                pending_end[0] = sum(1 for x in stream if x[0] == "ball_ended")
         elif k == "hold_queue" and queue is not None:
             queue.wait()
             t.loop.call_later(hold, queue.clear)
@@ -121,7 +127,7 @@ def _body(S, t, part, fired_log):
                 if not st["done"] and not st.get("off") and st["at"] == idx:
                     st["done"] = True
                     fired_log.append("%s at %s (current player ball counter=%s)" % (st["kind"], name, g.player.ball if g is not None and g.player else None))
-                    fire(st, queue)
+                    fire(st, queue, name)
             if name == "game_ended":
                 for st in stim:
                     st["off"] = True          # stimuli belong to the first game only
@@ -141,13 +147,21 @@ def _body(S, t, part, fired_log):
     if not game_seen:
         raise Violation("game-starts", "Game._start_game", "no game after the start button was pressed")
     ended = False
+    waited = [0]
     for _ in range(60):
         t.advance_time_and_run(2.5)
         if m.game is None:
             ended = True
             break
-        if hold_pending():
-            continue
+        if pending_end[0] is not None:
+            # an end was requested while a ball was starting / in play: that ball must end WITHOUT a drain
+            if sum(1 for x in stream if x[0] == "ball_ended") > pending_end[0]:
+                pending_end[0] = None
+            else:
+                waited[0] += 1
+                if waited[0] > 3:
+                    raise Violation("ball-ends-when-an-end-is-requested", "Game._run_ball", "end requested during the ball's start phase but the ball is still running 10 s later (balls_in_play=%s)" % m.game.balls_in_play)
+                continue
         g = m.game
         if g.balls_in_play > 0:
             before = g.balls_in_play
